@@ -1,4 +1,6 @@
 import Zeno.Proofs.Pipeline
+import Zeno.Proofs.Life
+import Zeno.Gen.Stages
 import Zeno.Gen.Pipeline
 import Zeno.Gen.Item
 /-!
@@ -40,7 +42,7 @@ theorem c01_exactly_once (evs : List Ev) (he : ∀ e ∈ evs, Shaped I e) (x : S
     (hnostop : (run P I {} evs).parked = []) :
     reported (run P I {} evs) x = 1 := by
   have h := (inv_run P I fin_ok sets_ok evs {} (inv_init I) he).conserve x
-  simp only [ids, hdrained, List.map_nil, List.count_nil, Nat.zero_add, handedBack, hnostop] at h
+  simp only [Zeno.Model.Pipeline.ids, hdrained, List.map_nil, List.count_nil, Nat.zero_add, handedBack, hnostop] at h
   omega
 
 /-- nothing is reported back that was not accepted: the queue never gets an acknowledgement for a seed it did not hand out -/
@@ -69,5 +71,22 @@ example :
     -- … and with a stop in between: the unfinished seed is neither acknowledged nor dropped
     (let s' := run P I {} [.accept "s" t0, .advance "s" t0, .advance "s" t0, .advance "s" t0, .advance "s" t1, .freeze, .finish "s"]
      (s'.acks.length, s'.parked) = (0, ["s"])) := by decide
+
+/-! ## never dropped: every seed is eventually let go by the finisher
+
+The events above leave open *how often* a seed is sent round again. `Model/Life.lean` composes the stage models themselves
+(`preprocess`, `archive`, `postprocess`, the finisher's decision) into the life of one seed, with arbitrary oracles for the
+normaliser, the site and the extractors in every pass. -/
+
+/-- **A seed cannot circulate for ever** (domains-crawl off): whatever the site serves in whichever pass, the finisher lets
+the seed go — acknowledges it — after at most `4 · max-redirect + 4` passes, and no pass makes `preprocess` panic. -/
+theorem c01_seed_is_let_go (cfg : Cfg) (hdc : cfg.domainsCrawl = false) (os : List Zeno.Model.Life.Oracle) (seen : Seen) (i : Info)
+    (hf : i.st = .fresh) (hr : i.redirects = 0)
+    (hids : Zeno.Model.Life.idsOK Zeno.Gen.Stages.facts I cfg os seen (.node i .nil) = true)
+    (hlen : 4 * cfg.maxRedirect + 4 ≤ os.length) :
+    (Zeno.Model.Life.life Zeno.Gen.Stages.facts I cfg os seen (.node i .nil)).2.isSome = true := by
+  have := Zeno.Model.Life.life_bounded Zeno.Gen.Stages.facts (by decide) (by decide) I (by decide) cfg hdc os seen 0 _
+    (Zeno.Model.Life.start_seed cfg.maxRedirect i hf hr) hids (by omega)
+  exact this.1
 
 end Zeno.Props.C01
